@@ -41,7 +41,7 @@ RULE = ("one case = one (workload, process history, kill point) run against a re
         "by exception / by IgnoreCommits, explicit commits; AttestationsDB inserts incl. duplicate hashes; "
         "PseudonymManager credential chains with attestations); kill kinds: event-indexed SIGKILL, mid-write SIGXFSZ, "
         "timed SIGKILL; distinct = distinct (workload digest, phase split, kill kind, kill position); "
-        "non-trivial = the kill happened after the database file was created (a reopen has something to recover)")
+        "non-trivial = a killed run (not an un-killed probe) in which the kill came after the database file was created")
 TRUSTED_BASE = [
     "tools/gen_db.py: AST translation of insert_* / Database.commit (straight-line + if), schema classification, handler list",
     "SQLite (3.40) statement/transaction atomicity and WAL recovery after process kill, the file system: exercised by the "
@@ -50,7 +50,7 @@ TRUSTED_BASE = [
 ]
 ASSUMPTIONS = ["the process is killed (SIGKILL/SIGXFSZ); power loss / OS crash (synchronous=NORMAL) is outside the property",
                "one process uses the database file at a time (locking_mode=EXCLUSIVE in the code)",
-               "primary keys collide only between records the code treats as the same record (first insert wins: INSERT OR IGNORE)"]
+               "rows are atomic values in the model: a torn row or transaction can only be seen by the kill runs"]
 
 META = None          # translator output of this run (table / method names)
 HERE = os.path.abspath(__file__)
@@ -137,7 +137,7 @@ def install_connect_dispatcher():
     real = sqlite3.connect
 
     def connect(*a, **k):
-        if _CONNECT_HOOK[0] is not None:
+        if _CONNECT_HOOK[0] is not None and not (a and a[0] == ":memory:"):
             k.setdefault("factory", _CONNECT_HOOK[0])
         return real(*a, **k)
     connect._c19 = True
@@ -147,13 +147,22 @@ def install_connect_dispatcher():
 def child_main(spec):
     import sqlite3
     install_connect_dispatcher()
+    import threading
     crash_at = int(spec.get("crash_at") or 0)
     counter = [0]
+    cur = threading.local()
+    plock = threading.Lock()
+
+    def tag():
+        cid = getattr(cur, "cid", None)
+        return "" if cid is None else f" @{cid}"
 
     def point(kind):
-        counter[0] += 1
-        _emit(f"P {counter[0]} {kind}")
-        if counter[0] == crash_at:
+        with plock:
+            counter[0] += 1
+            mine = counter[0]
+            _emit(f"P {mine} {kind}{tag()}")
+        if mine == crash_at:
             os.kill(os.getpid(), signal.SIGKILL)
             time.sleep(60)
 
@@ -169,7 +178,7 @@ def child_main(spec):
                 r = super().execute(sql, params)
                 point("RD")
                 return r
-            _emit("Q " + sql.encode().hex() + " " + json.dumps([_cx(x) for x in params]))
+            _emit("Q " + sql.encode().hex() + " " + json.dumps([_cx(x) for x in params]).replace(" ", "") + tag())
             point("q")
             try:
                 r = super().execute(sql, params)
@@ -204,6 +213,8 @@ def child_main(spec):
             super().commit()
             point("C")
 
+    if spec.get("pre") == "wallet_v1":
+        _make_wallet_v1(spec)
     _CONNECT_HOOK[0] = TConn
     if spec.get("fsize") and spec.get("fsize_from") == "start":
         _set_fsize(spec["fsize"])
@@ -230,21 +241,36 @@ def child_main(spec):
             orig = getattr(db, name)
 
             def w(*a, **k):
-                i = calls[0]
-                calls[0] += 1
-                _emit(f"B {i} {name}")
+                with plock:
+                    i = calls[0]
+                    calls[0] += 1
+                cur.cid = i
+                _emit(f"B {i} {name} {getattr(cur, 'op', -1)}")
                 try:
                     r = orig(*a, **k)
                 except BaseException as e:
+                    cur.cid = None
                     _emit(f"R {i} {type(e).__name__}")
                     raise
+                cur.cid = None
                 _emit(f"A {i}")
                 return r
             return w
         for name in dir(db):
             if name.startswith("insert_"):
                 setattr(db, name, wrap(name))
-        _run_ops(spec, db, mgr)
+        nthreads = int(spec.get("threads") or 0)
+        if nthreads > 1:
+            sys.setswitchinterval(1e-5)
+            first = int(spec.get("first_op") or 0)
+            idx = list(enumerate(spec["ops"], first))
+            ths = [threading.Thread(target=_run_ops, args=(spec, db, mgr, cur, idx[t::nthreads])) for t in range(nthreads)]
+            for th in ths:
+                th.start()
+            for th in ths:
+                th.join()
+        else:
+            _run_ops(spec, db, mgr, cur)
         dbfile = os.path.join(spec["dir"], "sqlite", spec["dbname"] + ".db") if spec["kind"] == "wallet" else spec["path"]
         _emit("Z %d %d" % (os.path.getsize(dbfile) if os.path.exists(dbfile) else 0,
                            os.path.getsize(dbfile + "-wal") if os.path.exists(dbfile + "-wal") else 0))
@@ -267,7 +293,47 @@ def _set_fsize(limit):
     resource.setrlimit(resource.RLIMIT_FSIZE, (int(limit), int(limit)))
 
 
-def _run_ops(spec, db, mgr):
+def _make_wallet_v1(spec):
+    """a version-1 wallet file as older releases wrote it (this tree's own v1 DDL text lacks a comma and is not valid
+    SQL): table without id_format, version row '1'; done with a plain connection before the hooks are armed"""
+    import sqlite3
+    path = os.path.join(spec["dir"], "sqlite", spec["dbname"] + ".db")
+    if os.path.exists(path):
+        return
+    os.makedirs(os.path.dirname(path), exist_ok=True)
+    c = sqlite3.connect(path)
+    c.executescript(f"CREATE TABLE {spec['dbname']}(hash BLOB, blob LONGBLOB, key MEDIUMBLOB, PRIMARY KEY (hash));"
+                    "CREATE TABLE option(key TEXT PRIMARY KEY, value BLOB);"
+                    "INSERT INTO option(key, value) VALUES('database_version', '1');")
+    for h, b, k in spec.get("pre_rows", []):
+        c.execute(f"INSERT INTO {spec['dbname']} (hash, blob, key) VALUES(?,?,?)", (_unhx(h), _unhx(b), _unhx(k)))
+    c.commit()
+    c.close()
+
+
+def _owner_objects(op):
+    """an owner builds credentials in memory (own key, own IdentityManager(':memory:')); returns what a verifier is
+    handed: public key, tokens, metadata, attestations per credential, and the complete disclosure"""
+    from ipv8.attestation.identity.manager import IdentityManager
+    from ipv8.keyvault.crypto import ECCrypto
+    crypto = ECCrypto()
+    sk = crypto.key_from_private_bin(_unhx(op["sk"]))
+    own = IdentityManager(":memory:")
+    ps = own.get_pseudonym(sk)
+    creds = []
+    for i, after in enumerate(op["after"]):
+        cr = ps.create_credential(_unhx(op["hashes"][i]), {"name": "f%d" % i}, creds[after].metadata if after is not None else None)
+        creds.append(cr)
+    atts = {}
+    for ci, akh in op.get("atts", []):
+        ak = crypto.key_from_private_bin(_unhx(akh))
+        att = ps.create_attestation(creds[ci].metadata, ak)
+        ps.add_attestation(ak.pub(), att)
+        atts.setdefault(ci, []).append((ak.pub(), att))
+    return sk, ps, creds, atts
+
+
+def _run_ops(spec, db, mgr, cur=None, indexed=None):
     from ipv8.attestation.identity.attestation import Attestation
     from ipv8.attestation.identity.metadata import Metadata
     from ipv8.attestation.tokentree.token import Token
@@ -287,9 +353,10 @@ def _run_ops(spec, db, mgr):
             except ValueError:
                 pass
         return None
-    for n, op in enumerate(spec["ops"], int(spec.get("first_op") or 0)):
+    for n, op in (indexed if indexed is not None else enumerate(spec["ops"], int(spec.get("first_op") or 0))):
         k = op["op"]
-        _emit("N %d" % n)
+        if cur is not None:
+            cur.op = n
         try:
             if k in ("enter", "exit", "exitexc", "commit", "close"):
                 _emit("G " + k)
@@ -327,7 +394,8 @@ def _run_ops(spec, db, mgr):
                 ps = mgr.get_pseudonym(sk)
                 after = find_cred(ps, op["after"]) if op.get("after") is not None else None
                 cred = ps.create_credential(_unhx(op["hash"]), op["json"], after.metadata if after else None)
-                creds[n] = cred
+                name = str(op["json"].get("name", ""))
+                creds[int(name[4:]) if name.startswith("attr") and name[4:].isdigit() else n] = cred
                 _emit("E cred")
             elif k == "mgratt":
                 sk = crypto.key_from_private_bin(_unhx(op["sk"]))
@@ -338,14 +406,67 @@ def _run_ops(spec, db, mgr):
                     att = ps.create_attestation(cred.metadata, ak)
                     ps.add_attestation(ak.pub(), att)
                 _emit("E mgratt")
+            elif k == "foreign":
+                # a verifier learns another party's pseudonym through the public API
+                sk, ops_, fcreds, fatts = _owner_objects(op)
+                pub = sk.pub()
+                how = op["how"]
+                if how == "substantiate":
+                    sel = {a.get_hash() for lst in fatts.values() for _, a in lst}
+                    chosen = [fcreds[i] for i in op["subset"]]
+                    md, tk, at, au = ops_.disclose_credentials(chosen, sel)
+                    if op.get("drop_tokens"):
+                        tk = b""
+                        for cr_ in chosen:
+                            _emit("K " + cr_.metadata.token_pointer.hex())     # handed over without its token
+                    mgr.substantiate(pub, md, tk, at, au)
+                elif how == "add_credential":
+                    vps = mgr.get_pseudonym(pub)
+                    for i in op["order"]:
+                        token = ops_.tree.elements[fcreds[i].metadata.token_pointer]
+                        vps.add_credential(token, fcreds[i].metadata, set(fatts.get(i, [])))
+                elif how == "add_metadata":
+                    vps = mgr.get_pseudonym(pub)
+                    for i in op["subset"]:
+                        _emit("K " + fcreds[i].metadata.token_pointer.hex())
+                        vps.add_metadata(fcreds[i].metadata)
+                _emit("E foreign")
             else:
                 raise ValueError("unknown op " + k)
         except Exception as e:  # noqa: BLE001 - an insert may raise (duplicate hash in the wallet table); keep going
             _emit(f"U {n} {type(e).__name__}")
 
 
+def _raw_state(spec):
+    """what open() depends on, read with a plain connection before the real class touches the file"""
+    import sqlite3
+    path = os.path.join(spec["dir"], "sqlite", spec["dbname"] + ".db") if spec["kind"] == "wallet" else spec["path"]
+    table = spec["dbname"] if spec["kind"] == "wallet" else "Tokens"
+    st = {"exists": os.path.exists(path), "option": False, "version": False, "ver": 0, "col": True}
+    if not st["exists"]:
+        return st
+    try:
+        c = sqlite3.connect(path)
+        try:
+            names = [r[0] for r in c.execute("SELECT name FROM sqlite_master WHERE type = 'table'")]
+            st["option"] = "option" in names
+            if st["option"]:
+                rows = c.execute("SELECT value FROM option WHERE key = 'database_version'").fetchall()
+                st["version"] = bool(rows)
+                if rows:
+                    v = rows[0][0]
+                    st["ver"] = int(v.decode() if isinstance(v, bytes) else v)
+            if spec["kind"] == "wallet" and table in names:
+                st["col"] = "id_format" in [r[1] for r in c.execute(f'PRAGMA table_info("{table}")')]
+        finally:
+            c.close()
+    except Exception as e:  # noqa: BLE001
+        st["error"] = type(e).__name__
+    return st
+
+
 def verify_main(spec):
-    out = {"open": None}
+    out = {"open": None, "raw_state": _raw_state(spec)}
     try:
         if spec["kind"] == "wallet":
             from ipv8.attestation.wallet.database import AttestationsDB
@@ -421,10 +542,11 @@ def verify_main(spec):
             crypto = ECCrypto()
             mgr = IdentityManager(spec["path"])
             res = {}
-            for skh in spec.get("sks", []):
-                sk = crypto.key_from_private_bin(_unhx(skh))
+            keys = [(skh, crypto.key_from_private_bin(_unhx(skh))) for skh in spec.get("sks", [])] + \
+                   [(pkh, crypto.key_from_public_bin(_unhx(pkh))) for pkh in spec.get("pubs", [])]
+            for skh, sk in keys:
                 ps = mgr.get_pseudonym(sk)
-                toks = list(ps.tree.elements.values())
+                toks = sorted(ps.tree.elements.values(), key=lambda t_: t_.get_hash())
                 big = len(toks) > 80 or len(ps.credentials) > 80
                 # TokenTree.verify walks the whole chain (quadratic over a store): beyond 80 tokens a spread sample
                 sample = toks if not big else (toks[::max(1, len(toks) // 10)] + toks[-2:])
@@ -443,7 +565,9 @@ def verify_main(spec):
                     for att in cred.attestations:
                         auth = crypto.key_from_public_bin(mgr.database.get_authority(att))
                         atts.append(bool(att.verify(auth)))
-                    r["credentials"].append({"md_verify": bool(md.verify(sk.pub())),
+                    r["credentials"].append({"token_pointer": md.token_pointer.hex(), "md_hash": md.get_hash().hex(),
+                                             "n_attestations": len(cred.attestations),
+                                             "md_verify": bool(md.verify(sk.pub())),
                                              "token_present": md.token_pointer in ps.tree.elements,
                                              "token_verifies": (None if big and ci % 40 else
                                                                 (md.token_pointer in ps.tree.elements
@@ -492,7 +616,7 @@ def zygote_main():
                 os.dup2(w, 1)
                 os.close(w)
                 os.close(reply_fd)
-                signal.alarm(150)                     # a stuck child must not stall the check
+                signal.alarm(600)                     # a stuck child must not stall the check (reported as infrastructure)
                 if req["mode"] == "child":
                     child_main(req["spec"])
                 else:
@@ -612,10 +736,10 @@ class Trace:
         self.current = None
         self.pending_blk = None
 
-    def _lab(self, lab):
+    def _lab(self, lab, cid=None):
         self.labels.append(lab)
-        if self.current is not None:
-            self.calls[self.current]["nlab"] = self.calls[self.current].get("nlab", 0) + 1
+        if cid is not None and cid in self.calls and self.calls[cid]["status"] == "started":
+            self.calls[cid]["nlab"] = self.calls[cid].get("nlab", 0) + 1
         elif getattr(self, "pending_blk", None) is not None and lab == "C":
             self.pending_blk = (self.pending_blk[0], True)
 
@@ -623,6 +747,15 @@ class Trace:
         for ln in lines:
             w = ln.split(" ")
             t = w[0]
+            cid = None
+            if w[-1].startswith("@") and t in ("P", "Q"):
+                try:
+                    cid = int(w[-1][1:])
+                except ValueError:
+                    cid = None
+                w = w[:-1]
+            if cid is None:
+                cid = self.current
             if t == "P":
                 self.points += 1
                 kind = w[2] if len(w) > 2 else ""
@@ -634,17 +767,21 @@ class Trace:
                     self.inflight = "exec"
                 elif kind.startswith("X:"):
                     self.inflight = None
-                    self._lab("X" if kind != "X:0" else "Xi")
-                    if self.current is not None:
-                        self.calls[self.current]["executed"] = True
+                    self._lab("X" if kind != "X:0" else "Xi", cid)
+                    if cid is not None and cid in self.calls:
+                        self.calls[cid]["executed"] = True
+                        self.evno = getattr(self, "evno", 0) + 1
+                        self.calls[cid]["xseq"] = self.evno
                 elif kind.startswith("X!"):
                     self.inflight = None
-                    self._lab("X!")
+                    self._lab("X!", cid)
                 elif kind == "c":
                     self.inflight = "commit"
                 elif kind == "C":
                     self.inflight = None
-                    self._lab("C")
+                    self._lab("C", cid)
+                    if cid is not None and cid in self.calls:
+                        self.calls[cid]["committed"] = True
             elif t == "Q":
                 try:
                     sql = bytes.fromhex(w[1]).decode()
@@ -654,12 +791,13 @@ class Trace:
                 m = INSERT_RE.match(sql)
                 row = {"policy": (m.group(1) or "").upper(), "table": m.group(2),
                        "cols": [c.strip() for c in m.group(3).split(",")], "vals": params}
-                if self.current is not None:
-                    self.calls[self.current]["row"] = row
+                if cid is not None and cid in self.calls:
+                    self.calls[cid]["row"] = row
             elif t == "B":
                 cid = int(w[1])
                 self.calls[cid] = {"name": w[2], "row": None, "status": "started", "executed": False,
-                                   "in_block": self.block_open, "op": getattr(self, "cur_op", None)}
+                                   "in_block": self.block_open,
+                                   "op": (int(w[3]) if len(w) > 3 and int(w[3]) >= 0 else None)}
                 self.order.append(cid)
                 self.items.append(("call", cid))
                 self.current = cid
@@ -667,7 +805,8 @@ class Trace:
                 cid = int(w[1])
                 self.calls[cid]["status"] = "acked"
                 self.labels.append("R")
-                self.current = None
+                if self.current == cid:
+                    self.current = None
                 if not self.block_open:
                     self.confirmed.add(cid)          # returned outside any `with db:` block
                 else:
@@ -676,7 +815,8 @@ class Trace:
                 cid = int(w[1])
                 self.calls[cid]["status"] = "raised"
                 self.calls[cid]["exc"] = w[2]
-                self.current = None
+                if self.current == cid:
+                    self.current = None
             elif t == "G":                            # a block op / commit / close is about to start
                 self.items.append(("blk", w[1]))
                 self.pending_blk = (len(self.items) - 1, False)
@@ -698,6 +838,8 @@ class Trace:
                     self.labels.append("xx")
             elif t == "N":
                 self.cur_op = int(w[1])
+            elif t == "K":
+                self.__dict__.setdefault("tokenless", set()).add(w[1])
             elif t == "O":
                 self.opened = True
             elif t == "D":
@@ -790,8 +932,9 @@ def parse_timeline_compact(reply):
 class Experiment:
     """phases: op lists run by successive processes on the same file; the last process carries the kill"""
 
-    def __init__(self, kind, ops_phases, kill, label, pks=(), sks=(), hashes=(), kills=None):
+    def __init__(self, kind, ops_phases, kill, label, pks=(), sks=(), hashes=(), kills=None, extra=None):
         self.kind = kind
+        self.extra = dict(extra or {})    # pubs (foreign pseudonyms to rebuild), threads, pre / pre_rows (wallet v1 file)
         self.ops_phases = ops_phases
         self.kill = kill                  # kill of the last process: {"mode": "none"|"point"|"fsize"|"timed", ...}
         self.kills = list(kills) if kills else [None] * (len(ops_phases) - 1)   # earlier processes: None | event index
@@ -800,12 +943,12 @@ class Experiment:
 
     def to_replay(self):
         return {"kind": self.kind, "ops_phases": self.ops_phases, "kill": self.kill, "kills": self.kills,
-                "label": self.label, "pks": self.pks, "sks": self.sks, "hashes": self.hashes}
+                "label": self.label, "pks": self.pks, "sks": self.sks, "hashes": self.hashes, "extra": self.extra}
 
     @staticmethod
     def from_replay(r):
         return Experiment(r["kind"], r["ops_phases"], r["kill"], r.get("label", "replay"),
-                          r.get("pks", ()), r.get("sks", ()), r.get("hashes", ()), r.get("kills"))
+                          r.get("pks", ()), r.get("sks", ()), r.get("hashes", ()), r.get("kills"), r.get("extra"))
 
 
 def execute(zy: Zygote, exp: Experiment, root: str, n: int):
@@ -821,7 +964,8 @@ def execute(zy: Zygote, exp: Experiment, root: str, n: int):
         phase_points = []
         for pi, ops in enumerate(exp.ops_phases):
             last = pi == len(exp.ops_phases) - 1
-            spec = dict(base, ops=ops, first_call=first_call, first_op=first_op, end="exit")
+            spec = dict(base, ops=ops, first_call=first_call, first_op=first_op, end="exit",
+                        threads=exp.extra.get("threads"), pre=exp.extra.get("pre"), pre_rows=exp.extra.get("pre_rows"))
             delay = None
             if last:
                 k = exp.kill
@@ -843,7 +987,7 @@ def execute(zy: Zygote, exp: Experiment, root: str, n: int):
             first_op += len(ops)
             if not last:
                 tr.end_phase()
-        vspec = dict(base, pks=exp.pks, sks=exp.sks, hashes=exp.hashes)
+        vspec = dict(base, pks=exp.pks, sks=exp.sks, hashes=exp.hashes, pubs=exp.extra.get("pubs", []))
         dump = run_verify(zy, vspec)
         return {"trace": tr, "rc": res["rc"], "stderr": res["stderr"], "dump": dump, "phases_run": pi + 1,
                 "phase_points": phase_points}
@@ -863,6 +1007,14 @@ API_COLS = {"Tokens": ("tokens", ["previous_token_hash", "signature", "content_h
             "Attestations": ("attestations", ["metadata_pointer", "signature"])}
 
 
+def _sha3(*hexes):
+    import hashlib
+    try:
+        return hashlib.sha3_256(b"".join(bytes.fromhex(x) for x in hexes)).hexdigest()
+    except (TypeError, ValueError):
+        return None
+
+
 def oracle(ctx, exp: Experiment, r) -> bool:
     """the property itself on (ack log, reopened content); True when it holds.  Uses no model notion: only which
     inserts had returned (outside a `with db:` block, or inside one whose normal exit had returned), what they sent
@@ -872,9 +1024,16 @@ def oracle(ctx, exp: Experiment, r) -> bool:
            "child_rc": r["rc"]}
     ok = True
 
+    seen = ctx.__dict__.setdefault("_c19_sig", {})
+
     def fail(sig, what):
         nonlocal ok
-        ok = False
+        if "dropped-by-primary-key" not in sig and "without-its-token" not in sig:   # known findings: go on comparing
+            ok = False
+        ctx.count("oracle:" + sig)
+        seen[sig] = seen.get(sig, 0) + 1
+        if seen[sig] > 4:              # enough replays of this kind; keep room for other kinds (vlib caps the list)
+            return
         ctx.oracle_fail(sig, what + f" [workload {exp.label}, kill {exp.kill}, last event {tr.last_point!r} "
                                     f"#{tr.points}, process {r['phases_run']}/{len(exp.ops_phases)}]",
                         dict(rep, dump_open=dump.get("open"), trace=dump.get("trace")))
@@ -891,8 +1050,9 @@ def oracle(ctx, exp: Experiment, r) -> bool:
     if not str(dump.get("reopen2", "")).startswith("ok"):
         fail("Database.open:second-reopen-fails", f"second open fails: {dump.get('reopen2')}")
     tables = canon_rows(dump)
-    by_key = {}         # (table, pk tuple) -> [(call id, full row dict)] in start order, for calls that reached sqlite
-    for cid in tr.order:
+    by_key = {}         # (table, pk tuple) -> [(call id, full row dict)] in the order sqlite executed the INSERTs
+    exec_order = sorted(tr.order, key=lambda c_: (tr.calls[c_].get("xseq", 10 ** 9), c_))
+    for cid in exec_order:
         c = tr.calls[cid]
         row = c["row"]
         if row is None:
@@ -911,6 +1071,8 @@ def oracle(ctx, exp: Experiment, r) -> bool:
             if k in present:
                 fail(f"{name}:duplicate-key", f"two rows with the same primary key in {name}")
             present[k] = d
+    dropped_token_hashes = set()
+    t_pk = {name: t["pk"] for name, t in tables.items()}
     # (1) every record whose insert had returned is present and unchanged: the stored record under its primary key
     #     exists and is the one written by that insert or by an earlier insert of the same key (INSERT OR IGNORE:
     #     the first one wins) — never by a later one, never anything else
@@ -929,8 +1091,35 @@ def oracle(ctx, exp: Experiment, r) -> bool:
         if not any({x: got.get(x) for x in full} == full for full in cands):
             fail(f"{c['name']}:acked-record-changed",
                  f"the record {c['name']} call #{cid0} had stored (and acknowledged) reads back different after the kill")
+            continue
+        # (1') the plain reading of the property: EVERY acknowledged record is there.  A record that differs from the
+        #      stored one only outside the primary key was silently dropped by INSERT OR IGNORE (narrow primary keys)
+        reported = False
+        for i in conf:
+            cid_i, full_i = lst[i]
+            if {x: got.get(x) for x in full_i} != full_i:
+                ci = tr.calls[cid_i]
+                diff = sorted(x for x in full_i if got.get(x) != full_i[x])
+                if k[0] == "Tokens":
+                    dropped_token_hashes.add(_sha3(full_i.get("previous_token_hash"), full_i.get("content_hash"),
+                                                   full_i.get("signature")))
+                if reported:
+                    continue
+                reported = True
+                fail(f"{ci['name']}:acked-distinct-record-dropped-by-primary-key",
+                     f"{ci['name']} call #{cid_i} returned, but its record (differs from the stored one in {diff}) is not "
+                     f"in the database: an earlier record with the same primary key {t_pk.get(k[0])} was kept")
+    # (1'') an insert that returned without ever handing an INSERT to sqlite
+    for cid in tr.order:
+        c = tr.calls[cid]
+        if cid in tr.confirmed and c["row"] is None:
+            fail(f"{c['name']}:returned-without-insert",
+                 f"{c['name']} call #{cid} returned normally but no INSERT statement reached the database")
     # (2) nothing partial, nothing that was never written
+    pre_keys = {(WALLET_DBNAME, (h_,)) for h_, _, _ in exp.extra.get("pre_rows", [])} if exp.extra.get("pre") else set()
     for k, got in present.items():
+        if k in pre_keys:
+            continue                     # a record the older release had written (checked in 3c)
         cands = by_key.get(k, [])
         if not any({x: got.get(x) for x in full} == full for _, full in cands):
             fail(f"{k[0]}:foreign-or-partial-record",
@@ -963,7 +1152,7 @@ def oracle(ctx, exp: Experiment, r) -> bool:
     if exp.kind in ("identity", "wallet"):
         flat = [op for ops in exp.ops_phases for op in ops]
         objs = {}          # (api name, owner, model key) -> list of (call id, expected API tuple) in call order
-        for cid in tr.order:
+        for cid in exec_order:
             opi = tr.calls[cid].get("op")
             if opi is None or opi >= len(flat) or flat[opi]["op"] not in ("tok", "md", "att", "watt"):
                 continue
@@ -980,12 +1169,16 @@ def oracle(ctx, exp: Experiment, r) -> bool:
                 objs.setdefault(("attestations", op["pk"], op["mp"]), []).append((cid, [op["mp"], op["sig"]]))
             else:
                 objs.setdefault(("by_hash", op["hash"], None), []).append((cid, [_cx(_unhx(op["blob"]))]))
+                objs.setdefault(("all", op["hash"], None), []).append(
+                    (cid, [op["hash"], _cx(_unhx(op["blob"])), op["key"], op["fmt"].encode().hex()]))
         for (aname, owner, _), lst in objs.items():
             conf = [i for i, (cid, _) in enumerate(lst) if cid in tr.confirmed]
             if not conf:
                 continue
             if aname == "by_hash":
                 got_list = [[x] for x in (api.get("by_hash") or {}).get(owner, [])] if owner in exp.hashes else None
+            elif aname == "all":
+                got_list = [x for x in api.get("all", []) if x and x[0] == owner]
             else:
                 got_list = (api.get(aname) or {}).get(owner) if owner in exp.pks else None
             if got_list is None:
@@ -996,6 +1189,13 @@ def oracle(ctx, exp: Experiment, r) -> bool:
                 fail(f"{name}:acked-object-reads-back-different",
                      f"the object given to {name} call #{lst[conf[0]][0]} (returned before the kill) is not among the "
                      f"objects the API returns after reopen")
+    # (3c) records of an older schema version survive the upgrade done by open()
+    if exp.extra.get("pre") == "wallet_v1":
+        for hx_, bx, kx in exp.extra.get("pre_rows", []):
+            got = present.get((WALLET_DBNAME, (hx_,)))
+            if got is None or got.get("blob") != _cx(_unhx(bx)) or got.get("key") != _cx(_unhx(kx)):
+                fail("AttestationsDB.check_database:record-lost-in-upgrade",
+                     "a record of the version-1 file is missing or changed after the (killed) upgrade and reopen")
     # (4) the pseudonym rebuilt from the store verifies
     if exp.kind == "manager":
         if "rebuild_error" in dump:
@@ -1015,8 +1215,23 @@ def oracle(ctx, exp: Experiment, r) -> bool:
                      f"{rr['tokens_verify'].count(False)} of {rr['tokens']} reloaded tokens fail TokenTree.verify")
             for cr in rr["credentials"]:
                 if not (cr["md_verify"] and cr["token_present"] and cr["token_verifies"] is not False):
-                    fail("PseudonymManager.__init__:rebuilt-credential-dangling",
-                         f"a reloaded credential does not verify / points to a missing token: {cr}")
+                    if not cr["token_present"] and cr.get("token_pointer") in dropped_token_hashes:
+                        fail("PseudonymManager.__init__:rebuilt-credential-dangling-token-dropped-by-primary-key",
+                             "a reloaded credential points to a token whose record was dropped by INSERT OR IGNORE "
+                             "(same public_key/previous_token_hash/content_hash as a stored token, other signature)")
+                    elif not cr["token_present"] and cr.get("token_pointer") in getattr(tr, "tokenless", set()):
+                        fail("PseudonymManager.add_metadata:metadata-stored-without-its-token",
+                             "the public API was handed metadata without the token it points to (add_metadata alone / a "
+                             "disclosure without tokens) and stored it; the reloaded credential has no token")
+                    else:
+                        fail("PseudonymManager.__init__:rebuilt-credential-dangling",
+                             f"a reloaded credential does not verify / points to a missing token: {cr}")
+                # get_attestations_over selects by metadata_pointer only (not by subject): count the same way
+                n_rows = sum(1 for kk, d in present.items() if kk[0] == "Attestations"
+                             and d.get("metadata_pointer") == cr.get("md_hash"))
+                if cr.get("n_attestations") is not None and cr["n_attestations"] != n_rows:
+                    fail("PseudonymManager.__init__:rebuilt-credential-attestations-differ",
+                         f"a reloaded credential carries {cr['n_attestations']} attestations, the store holds {n_rows}")
                 if not all(cr["attestations_verify"]):
                     fail("PseudonymManager.__init__:rebuilt-attestation-does-not-verify",
                          "a reloaded attestation fails verification")
@@ -1146,6 +1361,15 @@ def causal_check(ctx, exp, tr, tables, it, toks, drv):
     def h(*hexes):
         return hashlib.sha3_256(b"".join(bytes.fromhex(x) for x in hexes)).hexdigest()
     by_hash, pend = {}, []
+    first_hash, dropped = {}, set()     # per primary key: hash of the record that was stored; hashes of later, dropped ones
+    tokenless = getattr(tr, "tokenless", set())
+
+    def register(hsh, me_):
+        if me_ not in first_hash:
+            first_hash[me_] = hsh
+            by_hash[hsh] = me_
+        elif first_hash[me_] != hsh:
+            dropped.add(hsh)             # same primary key, other record: INSERT OR IGNORE kept the first (known finding)
     for cid in tr.order:
         row = tr.calls[cid]["row"]
         t = tables.get(row["table"]) if row else None
@@ -1157,10 +1381,10 @@ def causal_check(ctx, exp, tr, tables, it, toks, drv):
             return
         me = (model_table_index(row["table"]), it.keys.get(row_key(row, t["pk"]), 0))
         if row["table"] == "Tokens":
-            by_hash.setdefault(h(d["previous_token_hash"], d["content_hash"], d["signature"]), me)
+            register(h(d["previous_token_hash"], d["content_hash"], d["signature"]), me)
             dep = None if d["previous_token_hash"] == h(d["public_key"]) else d["previous_token_hash"]
         elif row["table"] == "Metadata":
-            by_hash.setdefault(h(d["token_pointer"], d["serialized_json_dict"], d["signature"]), me)
+            register(h(d["token_pointer"], d["serialized_json_dict"], d["signature"]), me)
             dep = d["token_pointer"]
         elif row["table"] == "Attestations":
             dep = d["metadata_pointer"]
@@ -1169,8 +1393,15 @@ def causal_check(ctx, exp, tr, tables, it, toks, drv):
         pend.append((me, dep))
     deps = {}
     for me, dep in pend:
-        if dep is not None:
-            deps.setdefault(me, by_hash.get(dep, (99, 0)))
+        if dep is None:
+            continue
+        if dep in tokenless:
+            ctx.count("causal_excluded:metadata-handed-over-without-token")     # known finding, reported by the oracle
+            continue
+        if dep in dropped:
+            ctx.count("causal_excluded:points-to-record-dropped-by-primary-key")  # known finding, reported by the oracle
+            continue
+        deps.setdefault(me, by_hash.get(dep, (99, 0)))
     line = "causal " + " ".join(f"d:{a[0]}.{a[1]}>{b[0]}.{b[1]}" for a, b in deps.items()) + " " + " ".join(toks)
     rep = drv.ask(line)
     ctx.count("causal:" + rep)
@@ -1178,6 +1409,24 @@ def causal_check(ctx, exp, tr, tables, it, toks, drv):
     if rep != "true":
         ctx.disagree(f"hypothesis Causal of rebuild_verifies does not hold for the insert order the manager produced "
                      f"({rep}) [{exp.label}]", {"experiment": exp.to_replay(), "line": line[:600]})
+
+
+def open_compare(ctx, exp, r, drv):
+    """the reopen step against the open() model: from the file state the kill really left (read raw by the verify
+    process before opening), does a complete open() raise?  model `openOk` vs the real class"""
+    st = (r["dump"] or {}).get("raw_state")
+    if not st or "error" in st:
+        return
+    cls = 1 if exp.kind == "wallet" else 0
+    line = "openok %d %d %d %d %d" % (cls, st["option"], st["version"], st["ver"], st["col"])
+    rep = drv.ask(line)
+    real_ok = r["dump"].get("open") == "ok"
+    ctx.count("open_state:opt%d_ver%d_v%d_col%d:%s" % (st["option"], st["version"], st["ver"], st["col"],
+                                                        "ok" if real_ok else "fails"))
+    if rep.startswith("ok") != real_ok:
+        ctx.disagree(f"open() on the file state the kill left ({st}): implementation "
+                     f"{'opens' if real_ok else 'fails: ' + str(r['dump'].get('open'))}, model says {rep}",
+                     {"experiment": exp.to_replay(), "line": line})
 
 
 def hypothesis_check(ctx, exp, r):
@@ -1193,8 +1442,10 @@ def hypothesis_check(ctx, exp, r):
     if str(jm).lower() not in ("wal", "delete", "truncate", "persist"):
         ctx.disagree(f"runtime assumption broken: journal_mode is {jm!r}, transactions are not atomic across a kill",
                      {"experiment": exp.to_replay()})
+    ctx.count("synchronous:%s" % dump.get("synchronous"))
     if dump.get("synchronous") in (0, "0"):
-        ctx.count("synchronous:off")
+        ctx.disagree("anchored mechanism changed: PRAGMA synchronous is OFF (the design relies on NORMAL; a process kill "
+                     "cannot show the difference, an OS crash can)", {"experiment": exp.to_replay()})
 
 
 # =====================================================================================================
@@ -1279,6 +1530,74 @@ def gen_manager_ops(rng, n_ops):
     return ops, [_hx(s) for s in sks]
 
 
+def pub_of(sk_hex):
+    from ipv8.keyvault.crypto import ECCrypto
+    return ECCrypto().key_from_private_bin(bytes.fromhex(sk_hex)).pub().key_to_bin().hex()
+
+
+def gen_foreign_ops(rng, n_ops):
+    """a verifier's store fed through the public API with OTHER parties' pseudonyms: complete disclosures
+    (IdentityManager.substantiate), disclosures without their tokens, add_credential in arrival orders that are not
+    chain order, add_metadata alone; some credentials attested by two authorities"""
+    ops, pubs = [], []
+    aks = [b"LibNaCLSK:" + rb(rng, 64) for _ in range(3)]
+    for _ in range(n_ops):
+        sk = b"LibNaCLSK:" + rb(rng, 64)
+        n = rng.choice([1, 2, 3, 5, 8])
+        shape = rng.choice(["chain", "bushy"])
+        after = [None if i == 0 else (i - 1 if shape == "chain" else rng.randrange(i)) for i in range(n)]
+        atts = []
+        for i in range(n):
+            for ak in rng.sample(aks, rng.choice([0, 0, 1, 2])):
+                atts.append([i, _hx(ak)])
+        how = rng.choice(["substantiate", "substantiate", "add_credential", "add_credential", "add_metadata",
+                          "substantiate_no_tokens"])
+        op = {"op": "foreign", "sk": _hx(sk), "hashes": [_hx(rb(rng, 32)) for _ in range(n)], "after": after,
+              "atts": atts, "how": how.replace("_no_tokens", ""), "drop_tokens": how.endswith("_no_tokens")}
+        if how == "add_credential":
+            order = list(range(n))
+            if rng.random() < 0.7:
+                rng.shuffle(order)
+            op["order"] = order
+        else:
+            op["subset"] = sorted(rng.sample(range(n), rng.randrange(1, n + 1)))
+        ops.append(op)
+        pubs.append(pub_of(_hx(sk)))
+    return ops, pubs
+
+
+def gen_randsig_ops(rng, n_creds):
+    """an own pseudonym whose key type signs with fresh randomness (ECDSA, 'very-low'): re-issuing a credential for
+    the same attestation hash gives a second token with the same primary key and another signature.  The key comes
+    from the OS generator (the API offers no seed) and is recorded in the workload, hence in every replay."""
+    from ipv8.keyvault.crypto import ECCrypto
+    sk = ECCrypto().generate_key("very-low").key_to_bin()
+    hashes = [rb(rng, 32) for _ in range(max(1, n_creds // 2))]
+    ops = []
+    for i in range(n_creds):
+        ops.append({"op": "cred", "sk": _hx(sk), "hash": _hx(rng.choice(hashes)),
+                    "json": {"name": "attr%d" % i, "schema": "id_metadata"}, "after": None})
+    return ops, [_hx(sk)]
+
+
+def gen_thread_ops(rng, n_ops):
+    """many small IdentityDatabase inserts issued from several threads at once (Database serialises through db_locks)"""
+    ops, pks = gen_identity_ops(rng, n_ops, blocks=False)
+    for o in ops:
+        if o["op"] == "tok":
+            o["content"] = None
+    return ops, pks
+
+
+def wallet_v1_experiment(rng):
+    """a version-1 wallet file (as older releases wrote it) is opened by this tree: check_database upgrades it"""
+    pre = [[_hx(rb(rng, 32)), _hx(rb(rng, rng.choice([10, 300, 9000]))), _hx(rb(rng, 40))] for _ in range(3)]
+    h = rb(rng, 32)
+    ops = [{"op": "watt", "hash": _hx(h), "blob": _hx(b"n" * 50), "key": _hx(rb(rng, 40)), "fmt": "id_metadata"}]
+    return Experiment("wallet", [ops], None, "scripted-wallet-v1-upgrade", hashes=[_hx(h)] + [p[0] for p in pre],
+                      extra={"pre": "wallet_v1", "pre_rows": pre})
+
+
 def reload_bound():
     """the bound of the in-memory structures the reload path may use (TokenTree's buffer of tokens waiting for their
     predecessor), read from the working tree; workload sizes are chosen relative to it"""
@@ -1353,6 +1672,7 @@ def scripted(rng):
                    hashes=[_hx(h1), _hx(h2)]),
         Experiment("manager", [mops], None, "scripted-manager", sks=sks),
         Experiment("manager", [mops[:3], mops[3:]], None, "scripted-manager-2phase", sks=sks),
+        wallet_v1_experiment(rng),
     ]
 
 
@@ -1380,12 +1700,12 @@ def split_phases(rng, ops, max_parts=2):
 
 
 def with_kill(exp: Experiment, kill) -> Experiment:
-    return Experiment(exp.kind, exp.ops_phases, kill, exp.label, exp.pks, exp.sks, exp.hashes, exp.kills)
+    return Experiment(exp.kind, exp.ops_phases, kill, exp.label, exp.pks, exp.sks, exp.hashes, exp.kills, exp.extra)
 
 
 def digest(exp: Experiment) -> str:
     import hashlib
-    return hashlib.sha1(json.dumps([exp.kind, exp.ops_phases, exp.kills], sort_keys=True).encode()).hexdigest()[:10]
+    return hashlib.sha1(json.dumps([exp.kind, exp.ops_phases, exp.kills, exp.extra], sort_keys=True).encode()).hexdigest()[:10]
 
 
 # =====================================================================================================
@@ -1475,19 +1795,25 @@ class Runner:
             ctx.count("label:" + lab)
         created = bool(r["dump"].get("tables"))
         if mode != "none" and tr.opened and len(tr.order) >= 3:
-            ctx.sample({"workload": exp.label, "kill": exp.kill, "earlier_kills": exp.kills, "last_event": tr.last_point,
+            ctx.sample({"input": exp.to_replay() if sum(len(p_) for p_ in exp.ops_phases) <= 8 else
+                        {"workload_digest": digest(exp), "ops": sum(len(p_) for p_ in exp.ops_phases)},
+                        "workload": exp.label, "kill": exp.kill, "earlier_kills": exp.kills, "last_event": tr.last_point,
                         "labels": " ".join(tr.labels[-15:]), "calls_started": len(tr.order), "acked": nacked,
                         "reopened_rows": {k: len(v["rows"]) for k, v in (r["dump"].get("tables") or {}).items()}})
+        if r["rc"] == -signal.SIGALRM:
+            from vlib import InfraError
+            raise InfraError("a C19 child process stalled for 600 s (machine overloaded?)")
         ok = oracle(ctx, exp, r)
         hypothesis_check(ctx, exp, r)
-        if self.drv is not None and ok:
+        if self.drv is not None:
+            open_compare(ctx, exp, r, self.drv)
+        if self.drv is not None and ok and not exp.extra.get("threads") and not exp.extra.get("pre"):
             try:
                 model_compare(ctx, exp, r, self.drv)
             except (KeyError, ValueError, IndexError) as e:
                 ctx.disagree(f"model comparison failed: {type(e).__name__}: {e}", {"experiment": exp.to_replay()})
         pos = exp.kill.get("at") or exp.kill.get("limit") or exp.kill.get("delay") or 0
-        ctx.case((digest(exp), mode, pos), nontrivial=created and (tr.opened or len(exp.ops_phases) > 1 or
-                                                                   any("S:INSERT" == p for p in tr.open_points)))
+        ctx.case((digest(exp), mode, pos), nontrivial=created and mode != "none")
 
 
 def exhaustive(runner: Runner, exp: Experiment, stride=1, rng=None, samples=None):
@@ -1567,6 +1893,23 @@ def run(ctx):
                 fsize_runs(runner, exp, probe, rng, ctx.scale(4, 12))
             if i % 4 == 1:
                 timed_runs(runner, exp, rng, ctx.scale(6, 12), 0.004 * max(1, len(ops)) / 4)
+        # the public API fed with other parties' pseudonyms; keys with randomised signatures; concurrent threads
+        api_exps = []
+        for i in range(ctx.scale(6, 30)):
+            ops, pubs = gen_foreign_ops(rng, rng.choice([1, 2, 3]))
+            phases = [ops[:1], ops[1:]] if len(ops) > 1 and rng.random() < 0.4 else [ops]
+            api_exps.append(Experiment("manager", phases, None, f"foreign-{i}", extra={"pubs": pubs}))
+            for o in ops:
+                ctx.count("foreign_how:" + o["how"] + ("-no-tokens" if o.get("drop_tokens") else ""))
+        for i in range(ctx.scale(2, 8)):
+            ops, sks = gen_randsig_ops(rng, rng.choice([2, 4, 6]))
+            api_exps.append(Experiment("manager", [ops], None, f"randsig-{i}", sks=sks))
+        for i in range(ctx.scale(2, 8)):
+            ops, pks = gen_thread_ops(rng, ctx.scale(160, 400))
+            api_exps.append(Experiment("identity", [ops], None, f"threads-{i}", pks=pks,
+                                       extra={"threads": rng.choice([2, 4, 8])}))
+        for e in api_exps:
+            exhaustive(runner, e, rng=rng, samples=ctx.scale(4, 12))
         ctx.extra["t_generated_s"] = round(ctx.elapsed(), 1)
         # stores larger than the in-memory bounds of the reload path (sizes relative to the bound read from the tree)
         cap = reload_bound()
@@ -1593,20 +1936,14 @@ def run(ctx):
         ctx.extra["crash_runs"] = runner.n
     finally:
         runner.close()
-    open_model_check(ctx)
 
 
-def open_model_check(ctx):
-    """the model's open() against the facts observed above is covered by the reopen oracle; here the model is asked
-    for every (state, kill index) of both schema scripts and must never answer `error` (mirrors theorem reopen_never_fails)"""
-    if not ctx.model_ok:
-        return
-    d = ctx.driver()
-    lines = [f"open {cls} {o} {v} {n}" for cls in (0, 1) for (o, v) in ((0, 0), (1, 0), (1, 1)) for n in range(0, 8)]
-    for ln, rep in zip(lines, d.batch(lines)):
-        ctx.count("model_open:" + rep.split(" ")[0])
-        if rep == "error":
-            ctx.disagree(f"model: `{ln}` fails to open", {"line": ln})
+def new_failures(ctx):
+    """oracle failures that are not known findings"""
+    import vlib
+    known = {k.get("signature") for k in vlib.load_known_findings()
+             if k.get("property") == PROPERTY and k.get("status") == "known"}
+    return [f for f in ctx.failures if f["signature"] not in known]
 
 
 def search(ctx, reason):
@@ -1617,7 +1954,7 @@ def search(ctx, reason):
         for exp in scripted(rng):
             probe = exhaustive(runner, exp)
             fsize_runs(runner, exp, probe, rng, 60)
-            if [f for f in ctx.failures]:
+            if new_failures(ctx):
                 return
         for i in range(40):
             kind = rng.choice(["identity", "wallet", "manager"])
@@ -1634,7 +1971,7 @@ def search(ctx, reason):
             probe = exhaustive(runner, exp)
             fsize_runs(runner, exp, probe, rng, 40)
             timed_runs(runner, exp, rng, 10, 0.01)
-            if [f for f in ctx.failures]:
+            if new_failures(ctx):
                 return
     finally:
         runner.close()
